@@ -127,6 +127,27 @@ def _assigned_names(nodes) -> list[str]:
     return seen
 
 
+MUTATORS = {"append", "appendleft", "extend", "extendleft", "clear", "pop", "popleft", "popitem", "remove", "insert",
+            "add", "discard", "update", "setdefault", "sort", "reverse"}
+
+
+def _mutated_names(nodes) -> list[str]:
+    """local names that are mutated in place in the statements (X.append(...), X[i] = ..., X += ...)"""
+    out: list[str] = []
+    for s in nodes:
+        for n in ast.walk(s):
+            if isinstance(n, ast.Call) and isinstance(n.func, ast.Attribute) and isinstance(n.func.value, ast.Name) \
+                    and n.func.attr in MUTATORS and n.func.value.id not in ("self",):
+                out.append(n.func.value.id)
+            elif isinstance(n, ast.Subscript) and isinstance(n.ctx, (ast.Store, ast.Del)) and isinstance(n.value, ast.Name):
+                out.append(n.value.id)
+    seen = []
+    for x in out:
+        if x not in seen:
+            seen.append(x)
+    return seen
+
+
 class Rewriter(ast.NodeTransformer):
     def __init__(self, info: FnInfo, local_names: set[str]):
         self.info = info
@@ -255,6 +276,9 @@ class Rewriter(ast.NodeTransformer):
         k = self.info.n_loops
         self.info.n_loops += 1
         assigned = _assigned_names(node.body + node.orelse)
+        for nm in _mutated_names(node.body + node.orelse):
+            if nm not in assigned:
+                assigned.append(nm)
         if kind == "for":
             assigned = _assigned_names([ast.Expr(value=node.target)]) + assigned
         self.info.loops.append({"index": k, "lineno": node.lineno, "kind": kind, "assigned": assigned,
@@ -341,6 +365,58 @@ class Rewriter(ast.NodeTransformer):
         return node
 
 
+class HoistListComps(ast.NodeTransformer):
+    """[elt for T in it if c] inside a simple statement  ==>  explicit loop before the statement:
+           __vc_lcN = []
+           for T in it:
+               if c: __vc_lcN.append(elt)
+    (so that the loop can be cut like any other).  Differences from CPython: the loop target leaks into
+    the function scope and the comprehension is evaluated before the other sub-expressions of the
+    statement; only applied to single-generator, non-async list comprehensions."""
+
+    def __init__(self):
+        self.n = 0
+
+    def _hoist(self, stmt):
+        found = []
+        outer = self
+
+        class R(ast.NodeTransformer):
+            def visit_Lambda(self, n):
+                return n
+
+            def visit_FunctionDef(self, n):
+                return n
+
+            visit_AsyncFunctionDef = visit_FunctionDef
+
+            def visit_ListComp(self, n):
+                if len(n.generators) != 1 or n.generators[0].is_async:
+                    return n
+                self.generic_visit(n)
+                name = f"__vc_lc{outer.n}"
+                outer.n += 1
+                found.append((name, n))
+                return ast.copy_location(ast.Name(id=name, ctx=ast.Load()), n)
+
+        new = R().visit(stmt)
+        pre = []
+        for name, comp in found:
+            g = comp.generators[0]
+            body = ast.Expr(value=ast.Call(func=ast.Attribute(value=ast.Name(id=name, ctx=ast.Load()), attr="append",
+                                                             ctx=ast.Load()), args=[comp.elt], keywords=[]))
+            for cond in reversed(g.ifs):
+                body = ast.If(test=cond, body=[body], orelse=[])
+            pre.append(ast.Assign(targets=[ast.Name(id=name, ctx=ast.Store())], value=ast.List(elts=[], ctx=ast.Load())))
+            pre.append(ast.For(target=g.target, iter=g.iter, body=[body], orelse=[]))
+        return [ast.copy_location(p, stmt) for p in pre] + [new]
+
+    def visit_Return(self, node):
+        return self._hoist(node)
+
+    visit_Assign = visit_AugAssign = visit_Expr = visit_Return
+
+
 class NativeLoopBody(ast.NodeTransformer):
     """inside a natively executed (concrete) for loop the cut calls must be inert:
     loop_continue(k) -> continue, trailing loop_back(k) removed"""
@@ -409,6 +485,8 @@ def load(module: str, qualname: str, extra_globals: dict | None = None, *, vc=No
     if fn.body and isinstance(fn.body[0], ast.Expr) and isinstance(getattr(fn.body[0], "value", None), ast.Constant) \
             and isinstance(fn.body[0].value.value, str):
         fn.body = fn.body[1:] or [ast.Pass()]
+    fn = HoistListComps().visit(fn)
+    ast.fix_missing_locations(fn)
     local_names = set(_assigned_names(fn.body)) | {a.arg for a in fn.args.args + fn.args.kwonlyargs + fn.args.posonlyargs}
     rw = Rewriter(info, local_names)
     if fn.args.args:
